@@ -50,10 +50,22 @@ def _with_alarm(seconds: int, fn: Callable, *args):
 def with_watchdog(seconds: int, fn: Callable, *args):
     """Run fn under a watchdog.  A first timeout is retried once with a much longer limit: on a loaded machine a short
     limit can expire although the call takes milliseconds, and a timeout must never be a false alarm."""
+    global _CONFIRMED_TIMEOUTS
+    if _CONFIRMED_TIMEOUTS >= 3:
+        # the code under test has been seen not to terminate within the long limit three times in this run: later timeouts are
+        # reported after the short limit (the run already fails; the point is to finish and report)
+        return _with_alarm(1, fn, *args)
     try:
         return _with_alarm(seconds, fn, *args)
     except Timeout:
-        return _with_alarm(max(60, 10 * seconds), fn, *args)
+        try:
+            return _with_alarm(max(60, 10 * seconds), fn, *args)
+        except Timeout:
+            _CONFIRMED_TIMEOUTS += 1
+            raise
+
+
+_CONFIRMED_TIMEOUTS = 0
 
 
 def tparse(src: str):
@@ -166,6 +178,11 @@ def replay(ctx: fw.Ctx, spec: dict, rec: dict) -> int:
             st.record(case)
             if (a == b) != same:
                 st.fail("== disagrees with structural identity", case)
+    elif kind == "linkpair":
+        st.record(case)
+        msg = eval_linkpair(case["source"], case["how"])
+        if msg:
+            st.fail(msg, case)
     elif kind == "filetree":
         tree = {k: case[k] for k in ("files", "main", "search")}
         tree["dirs"] = case.get("dirs", [])
@@ -961,9 +978,13 @@ def run_c05(ctx: fw.Ctx) -> None:
             q = r.choice("\"'")
             more.append(q + "".join(r.choice(STR_ITEMS) for _ in range(k)) + q)
         eval_lex(st_s, more, positions=False)
-    st2 = ctx.stream("long brackets level 0..4 with foreign closers, leading newline, unterminated")
+    st_t = ctx.stream("truncated literals: every prefix of every 0/1-item literal (and a sample of 2-item ones), alone and followed by line ends")
+    base = c05_literals(1) + r.sample(c05_literals(2), ctx.n(300, 6000))
+    trunc = sorted({lit[:k] + suf for lit in base for k in range(1, len(lit) + 1) for suf in ("", "\n", "\n\n", " ", "\r\n", "\n x")})
+    eval_lex(st_t, trunc, positions=False)
+    st2 = ctx.stream("long brackets level 0..4 with foreign closers, leading newline, unterminated, followed by line ends")
     lb = c05_long_brackets()
-    eval_lex(st2, lb + ["x = " + s + " y" for s in lb], positions=False)
+    eval_lex(st2, lb + ["x = " + s + " y" for s in lb] + [s + suf for s in lb for suf in ("\n", "\n\n", "\r\n")], positions=False)
     st2.exhaustive = True
     st3 = ctx.stream("comment opener shapes")
     eval_lex(st3, c05_comments(), positions=False)
@@ -2010,6 +2031,54 @@ def run_c18(ctx: fw.Ctx) -> None:
             if (a == b) != same:
                 st_n.fail("== disagrees with structural identity (numeral digits)", case)
     st_n.exhaustive = True
+    st_l = ctx.stream("same program linked differently (parent links to another root, another file name, after resolution from another directory): must be equal")
+    for i in range(ctx.n(60, 1000)):
+        g = gen.ProgGen(r, gen.Cfg(max_depth=r.choice([1, 2]), max_stats=3))
+        src = gen.render(g.chunk(), r, plain=True)
+        for how in LINK_VARIANTS:
+            case = {"kind": "linkpair", "source": src, "how": how}
+            st_l.record(case, key=src + "\0" + how)
+            msg = eval_linkpair(src, how)
+            if msg:
+                st_l.fail(msg, case)
+
+
+LINK_VARIANTS = ["file-name", "foreign-parent", "resolved-from-two-directories", "comments-and-attributes"]
+
+
+def eval_linkpair(src: str, how: str) -> str | None:
+    (sa, a), (sb, b) = tparse(src), tparse(src)
+    if sa != "ok" or sb != "ok":
+        return None
+    if how == "file-name":
+        b.parent(None, Path("/somewhere/else.lua"))
+    elif how == "foreign-parent":
+        holder = A.Block(T(), [b], None)
+        holder.parent(None, Path("holder.lua"))
+    elif how == "resolved-from-two-directories":
+        root = Path(tempfile.mkdtemp(prefix="tumfl-c18-"))
+        try:
+            (root / "d1").mkdir()
+            (root / "d2").mkdir()
+            (root / "d1" / "m.lua").write_text(src, encoding="utf-8")
+            (root / "d2" / "m.lua").write_text(src, encoding="utf-8")
+            with quiet():
+                try:
+                    a = tumfl.resolve_recursive(root / "d1" / "m.lua", [])
+                    b = tumfl.resolve_recursive(root / "d2" / "m.lua", [])
+                except TumflError:
+                    return None
+        finally:
+            shutil.rmtree(root, ignore_errors=True)
+    elif how == "comments-and-attributes":
+        for st_ in getattr(b, "statements", []):
+            st_.token.comment.append("added later")
+            st_.token.line += 7
+    if struct_dump(a) != struct_dump(b):
+        return None
+    if not (a == b) or not (b == a):
+        return f"the same program compares unequal when only its links differ ({how})"
+    return None
 
 
 for pid, runner, rule in [
@@ -2056,12 +2125,20 @@ def sexp_show(x) -> str:
     return x
 
 
-REQ_POSITIONS = [
-    "{R}", "local v{k} = {E}", "x{k} = {E}", "f{k}({E}, 1)", "t{k} = {{ {E}, k = {E}, [{E}] = 2 }}", "if {E} then y{k} = 1 end",
-    "while {E} do break end", "repeat until {E}", "for i = {E}, 2 do end", "for k, v in {E} do end", "z{k} = t[{E}]", "z{k} = {E} .. 'x'",
-    "z{k} = -{E}", "{E}()", "w{k} = {E}.field", "{E}:method(1)", "function g{k}() return {E} end", "do local q = {E} end",
-    "g{k}(function() {R} end)", "do {R} end", "if c then {R} else {R2} end", "function h{k}() {R} end", "while c do {R} end",
-]
+# every slot of every node class in which a call can stand: {R}/{R2} a call statement, {E} a call used as an expression
+SITES_STMT = ["{R}", "do {R} end", "while c do {R} end", "repeat {R} until c", "if c then {R} end", "if c then else {R} end", "if c then {R} else {R2} end",
+              "if c then elseif d then {R} end", "if c then elseif d then else {R} end", "if c then elseif d then elseif e then else {R} end",
+              "if c then elseif d then elseif e then {R} end", "for i = 1, 2 do {R} end", "for k in p do {R} end", "function h{k}() {R} end",
+              "function t.a.b:m{k}() {R} end", "local function lf{k}() {R} end", "x{k} = function() {R} end", "g{k}(function() {R} end)",
+              "do do do {R} end end end", "while c do if d then else repeat {R} until e end end"]
+SITES_EXPR = ["local v{k} = {E}", "local a{k} <const>, b{k} = 1, {E}", "x{k} = {E}", "x{k}, y{k} = 1, {E}", "x{k}[{E}] = 1", "{E}.f = 1", "{E}[1] = 2",
+              "f{k}({E}, 1)", "f{k}(1, {E})", "o:m{k}({E})", "{E}()", "{E}:method(1)", "{E}.g()", "w{k} = {E}.field", "w{k} = {E}[1]", "z{k} = t[{E}]",
+              "t{k} = {{ {E}, k = {E}, [{E}] = 2 }}", "t{k} = {{ [1] = {E} }}", "f{k}{{ {E} }}", "if {E} then y{k} = 1 end", "if c then elseif {E} then end",
+              "if c then elseif d then elseif {E} then else end", "while {E} do break end", "repeat until {E}", "for i = {E}, 2 do end", "for i = 1, {E} do end",
+              "for i = 1, 2, {E} do end", "for k, v in {E} do end", "for k in p, {E} do end", "z{k} = {E} .. 'x'", "z{k} = 1 .. {E}", "z{k} = -{E}",
+              "z{k} = not {E}", "z{k} = ({E}).x", "z{k} = {E} and 1 or 2", "function g{k}() return {E} end", "function g{k}() return 1, {E} end",
+              "do local q = {E} end", "x{k} = {{ k = function() return {E} end }}", "while c do local q = {E} end"]
+REQ_POSITIONS = SITES_STMT + SITES_EXPR
 
 
 def make_file_tree(r: random.Random, faults: bool, cycle: int = 0, k4: bool = False) -> dict:
@@ -2300,6 +2377,15 @@ def run_c04(ctx: fw.Ctx) -> None:
     perms = [list(p) for n in range(0, 4) for p in itertools.permutations(["sp1", "sp2", ""], n)]
     eval_resolve(ctx, st2, [dict(base, search=p) for p in perms], [None])
     st2.exhaustive = True
+    st_sys = ctx.stream("a require in every syntactic site, in the main file and in a required file")
+    sys_trees = []
+    for i, tmpl in enumerate(REQ_POSITIONS):
+        line = tmpl.replace("{E}", "require('lib.m')").replace("{R2}", "require 'lib.m'").replace("{R}", "require('lib.m')").replace("{k}", str(i))
+        sys_trees.append({"files": {"main.lua": f"start()\n{line}\ntail()\n", "lib/m.lua": "in_m()\n"}, "dirs": [], "main": "main.lua", "search": []})
+        sys_trees.append({"files": {"main.lua": "start()\nlocal a = require('lib.a')\ntail()\n", "lib/a.lua": f"in_a()\n{line.replace('lib.m', 'm')}\ntail_a()\n",
+                                    "lib/m.lua": "in_m()\n"}, "dirs": [], "main": "main.lua", "search": []})
+    eval_resolve(ctx, st_sys, sys_trees, [None, "min"])
+    st_sys.exhaustive = True
     st3 = ctx.stream("random styles on resolved programs")
     eval_resolve(ctx, st3, [make_file_tree(r, faults=False) for _ in range(ctx.n(30, 400))], [style_space(r), style_space(r)])
     t2_resolve(ctx, trees[: ctx.n(80, 1500)] + [dict(base, search=p) for p in perms])
@@ -2319,7 +2405,7 @@ register(
     obligations=["Tumfl.Props.C11_roundtrip"],
     classify=classify_k,
     rule="random trees of Lua files on a real temporary directory (<= 5 modules, nested directories, the same module on several search paths, "
-         "suffixes '', .tl, .lua, directories carrying a module's bare name, requires in 23 syntactic positions); oracle: specification of inlining "
+         "suffixes '', .tl, .lua, directories carrying a module's bare name, requires in 60 syntactic positions); oracle: specification of inlining "
          "computed on the Lean Spec's trees of the files with an independent lookup, then format in both styles re-read by the Spec; distinct = distinct trees",
     partial_hypotheses=["no theorem about the model resolver yet"],
 )
@@ -2342,8 +2428,7 @@ FAULTS = {
     "dot-existing": 'require(".{EXISTING}")',
     "dotdot-existing": 'require("..{EXISTING}")',
 }
-FAULT_SITES = ["{F}", "local v = {F}", "f({F})", "t = {{ {F} }}", "if {F} then end", "return {F}", "do {F} end", "function g() {F} end",
-               "x = {{ k = function() return {F} end }}", "{F}()", "y = {F}.z", "while c do local q = {F} end"]
+FAULT_SITES = [t.replace("{R2}", "{F}").replace("{R}", "{F}").replace("{E}", "{F}").replace("{k}", "") for t in REQ_POSITIONS] + ["return {F}", "return 1, {F}"]
 
 
 def inject_fault(r: random.Random, tree: dict, fault: str, site: str, where: str) -> tuple[dict, int]:
@@ -2410,6 +2495,27 @@ def run_c12(ctx: fw.Ctx) -> None:
                 st.fail(f"uninlinable require raised {status}: {res!r} instead of InvalidDependencyError", case)
             elif res.token.line != line_no:
                 st.fail("InvalidDependencyError does not designate the offending call", dict(case, token_line=res.token.line, expected_line=line_no))
+    st_sys = ctx.stream("every syntactic site x every fault kind, in the main file and one and two files down the tree")
+    for site in FAULT_SITES:
+        for fault in FAULTS:
+            for depth in ((0, 1, 2) if not ctx.quick else (dh(site + fault) % 3,)):
+                base = {"files": {"main.lua": "start()\nrequire('lib.a')\ntail()\n", "lib/a.lua": "in_a()\nlocal b = require('lib.b')\ntail_a()\n",
+                                  "lib/b.lua": "in_b()\ntail_b()\n", "m0.lua": "in_m0()\n"}, "dirs": [], "main": "main.lua", "search": [""]}
+                where = ["main.lua", "lib/a.lua", "lib/b.lua"][depth]
+                if site.startswith("return") and where == "lib/a.lua":
+                    where = "lib/b.lua"   # a return in a statement-level inlined file is K4 territory
+                bad, line_no = inject_fault(r, base, fault, site, where)
+                case = {"kind": "filetree", "files": bad["files"], "dirs": bad["dirs"], "main": bad["main"], "search": bad["search"],
+                        "fault": fault, "site": site, "in_file": where}
+                st_sys.record(case, key=json.dumps(case, sort_keys=True))
+                status, res = resolve_tree(bad)
+                if status == "ok":
+                    st_sys.fail("an uninlinable require call was accepted silently", case)
+                elif status != "dep":
+                    st_sys.fail(f"uninlinable require raised {status}: {res!r} instead of InvalidDependencyError", case)
+                elif res.token.line != line_no:
+                    st_sys.fail("InvalidDependencyError does not designate the offending call", dict(case, token_line=res.token.line, expected_line=line_no))
+    st_sys.exhaustive = True
     st_rel = ctx.stream("a module that exists only next to the requiring file's *requirer* is not found (lookup starts at the file's own directory)")
     for variant in range(ctx.n(12, 120)):
         how = r.choice(["local m = require('lib.mod')", "f(require 'lib.mod')", "return require('lib.mod')", "require('lib.mod')",
@@ -2538,11 +2644,15 @@ class ApiWorld:
                     sty = None if op[2] is None else (MinifiedStyle if op[2] == "min" else mkstyle(op[2]))
                     before = deep_snapshot(ast)
                     sbefore = None if sty is None else style_dict(sty)
+                    classes = [c for c in (sty or FormattingStyle).__mro__ if c is not object]
+                    vbefore = [{k: repr(v) for k, v in vars(c).items()} for c in classes]
                     out = tumfl.format(ast, sty)
                     if deep_snapshot(ast) != before:
                         return "MUTATED-AST"
                     if sty is not None and style_dict(sty) != sbefore:
                         return "MUTATED-STYLE"
+                    if [{k: repr(v) for k, v in vars(c).items()} for c in classes] != vbefore:
+                        return "MUTATED-STYLE-CLASS (an attribute was added to or changed on the style class or one of its bases)"
                     if style_dict(FormattingStyle) != DEFAULT_STYLE_VALUES or style_dict(MinifiedStyle) != MINIFIED_STYLE_VALUES:
                         return "MUTATED-BUILTIN-STYLE"
                     return "text:" + out
@@ -2584,6 +2694,12 @@ C14_TREE = {"files": {"main.lua": "a = 1\nrequire('m')\nb = require('lib.n')\nre
                       "bad.lua": "require('missing')\n", "needs.lua": "require('util')\n"}, "dirs": [], "main": "main.lua", "search": []}
 
 
+# programs whose layout depends on the indentation width of the style (a bracket group that fits or not at depth 1..3)
+WIDE_PROGS = ["do do f(aaaaaaaaaa, bbbbbbbbbb, cccccccccc, dddddddddd, ee) end end",
+              "do do do t = {aaaaaaaa, bbbbbbbb, cccccccc, 'a long string literal with words', dddddd} end end end",
+              "function f() if a then return g(aaaaaaaaaaaa, bbbbbbbbbbbb, cccccccccccc, dddddddd) end end"]
+
+
 def random_history(r: random.Random, n: int) -> list[tuple]:
     progs_ok = ["x = 1 + 2 * 3", "local is, as = 1, 2 return is + as", "for i = 1, 2 do print(i) end -- c", "f'as' ; g\"is\"", "t = {1, [2] = 3, x = 4}",
                 "while x do --[[ c ]] break end", "function a.b:c(...) return ... end", "if a then b() else if c then d() end end",
@@ -2600,7 +2716,8 @@ def random_history(r: random.Random, n: int) -> list[tuple]:
         elif k < 0.35:
             ops.append(("parse", r.choice(progs_bad)))
         elif k < 0.55:
-            ops.append(("format", r.choice(progs_ok), r.choice([None, "min", dict(ADD_ALL_BRACKETS=True, LINE_WIDTH=20), dict(INDENTATION="  ", KEEP_SEMICOLON=True)])))
+            ops.append(("format", r.choice(progs_ok + WIDE_PROGS), r.choice([None, "min", dict(ADD_ALL_BRACKETS=True, LINE_WIDTH=20), dict(INDENTATION="  ", KEEP_SEMICOLON=True),
+                                                                              dict(INDENTATION=" ", LINE_WIDTH=55), dict(INDENTATION="\t\t", LINE_WIDTH=58), dict(INDENTATION="", LINE_WIDTH=50)])))
         elif k < 0.65:
             ops.append(("resolve", r.choice(["main.lua", "main.lua", "needs.lua", "bad.lua"]), r.choice([["lib"], ["alt"], ["alt", "lib"], []]), r.random() < 0.4))
         elif k < 0.8:
@@ -2997,10 +3114,11 @@ LEAN_OBLIGATIONS.update({
     ),
     "C19": dict(
         modules=["Tumfl.Props.C19"],
-        obligations=["Tumfl.Props.C19_ok", "Tumfl.Props.C19_chunk", "Tumfl.Props.C09_no_index_error"],
+        obligations=["Tumfl.Props.C19_ok", "Tumfl.Props.C19_chunk", "Tumfl.Props.C19_rejected", "Tumfl.Props.C19_lexer_monotone", "Tumfl.Props.C09_no_index_error"],
         extractors=["Ladder", "LexTables"],
         tie_names=["T1:Ladder", "T2:parse (final hint stack on success, hint chain of every ParserError)"],
-        partial_hypotheses=["rejected case (hint positions sorted, none after the offending token): oracle stream only, no theorem yet"],
+        partial_hypotheses=["both cases are proved on the model (accepted: chain empty; rejected: positions non-decreasing, none after the offending token); "
+                            "positions are (line, column) pairs of the model tokens, tied to the text by C16_positions and to parser.py by T2:parse"],
     ),
     "C09": dict(
         modules=["Tumfl.Props.C09", "Tumfl.Props.C19", "Tumfl.Props.C05"],
@@ -3108,6 +3226,20 @@ LEAN_OBLIGATIONS["C20"] = dict(
 LEAN_OBLIGATIONS["C05"]["modules"] = ["Tumfl.Props.C05", "Tumfl.Props.C20"]
 LEAN_OBLIGATIONS["C05"]["obligations"] = LEAN_OBLIGATIONS["C05"]["obligations"] + ["Tumfl.Props.C05_long_brackets", "Tumfl.Props.C05_comments"]
 LEAN_OBLIGATIONS["C05"]["partial_hypotheses"] = ["quoted strings, long brackets and comments are each proved; the dispatch in get_next_token that chooses among them is covered by C09_lexer_total and T2:lex"]
+
+for _pid, _obl, _note in [
+    ("C05", ["Tumfl.Props.Lex_sound", "Tumfl.Props.Lex_complete", "Tumfl.Props.Lex_cr_counterexample", "Tumfl.Props.Lex_byte_counterexample"],
+     "whole-lexer agreement with the reference lexer is proved in both directions (Lex_sound for texts without carriage returns, Lex_complete for in-scope string values)"),
+    ("C20", ["Tumfl.Props.Lex_sound", "Tumfl.Props.Lex_complete"],
+     "no comment text becomes a token and no token is swallowed: the token sequences of the model lexer and of the reference lexer are related pointwise (Lex_sound / Lex_complete)"),
+    ("C10", ["Tumfl.Props.Lex_sound"], "lexical clause (numerals, white space, symbols are Lua's): Lex_sound"),
+    ("C03", ["Tumfl.Props.Lex_complete"], "token values are the ones Lua reads: Lex_complete"),
+    ("C07", ["Tumfl.Props.Lex_complete", "Tumfl.Props.Lex_sound"], "numerals in context (after any token, before any token) are scanned as the reference scans them: Lex_sound / Lex_complete"),
+]:
+    _d = LEAN_OBLIGATIONS[_pid]
+    _d["modules"] = list(dict.fromkeys(_d["modules"] + ["Tumfl.Props.Lex"]))
+    _d["obligations"] = list(dict.fromkeys(_d["obligations"] + _obl))
+    _d["partial_hypotheses"] = _d["partial_hypotheses"] + [_note]
 for _pid, _ov in LEAN_OBLIGATIONS.items():
     REGISTRY[_pid].update(_ov)
 
